@@ -38,6 +38,9 @@ type World struct {
 	GuardType   map[string]types.Type // field-heap name -> the struct type (for `this`)
 	GuardDecls  []*GuardDecl
 	mayLock     map[*ssa.Function]int
+	// contract variants: VarContracts[variant][key]; ActiveVariant selects which are in force
+	VarContracts  map[string]map[string]*Contract
+	ActiveVariant string
 	// refinement: function key of an implementing method -> (impl block, interface method contract)
 	Refines map[string]*Refinement
 	Impls   []*ImplBlock
@@ -124,6 +127,16 @@ func loadWorld(p *Program, specDirs []string) (*World, error) {
 			key := w.resolveContractKey(c, pkg, sf.Imports)
 			if key == "" {
 				w.Orphans = append(w.Orphans, fmt.Sprintf("%s:%d: %s", c.File, c.Line, c.Key))
+				continue
+			}
+			if c.Variant != "" {
+				if w.VarContracts == nil {
+					w.VarContracts = map[string]map[string]*Contract{}
+				}
+				if w.VarContracts[c.Variant] == nil {
+					w.VarContracts[c.Variant] = map[string]*Contract{}
+				}
+				w.VarContracts[c.Variant][key] = c
 				continue
 			}
 			if _, dup := w.Contracts[key]; dup {
@@ -378,6 +391,11 @@ func (w *World) splitQual(q string, pkg string, imports map[string]string) (stri
 
 // contractFor returns the contract of a static callee, if any.
 func (w *World) contractFor(fn *ssa.Function) *Contract {
+	if w.ActiveVariant != "" {
+		if c, ok := w.VarContracts[w.ActiveVariant][funcKey(fn)]; ok {
+			return c
+		}
+	}
 	if c, ok := w.Contracts[funcKey(fn)]; ok {
 		return c
 	}
@@ -393,6 +411,11 @@ func (w *World) contractForIfaceMethod(m *types.Func) *Contract {
 	rt := sig.Recv().Type()
 	if n, ok := rt.(*types.Named); ok && n.Obj().Pkg() != nil {
 		key := n.Obj().Pkg().Path() + "." + n.Obj().Name() + "." + m.Name()
+		if w.ActiveVariant != "" {
+			if c, ok := w.VarContracts[w.ActiveVariant][key]; ok {
+				return c
+			}
+		}
 		if c, ok := w.Contracts[key]; ok {
 			return c
 		}
